@@ -20,6 +20,7 @@ RULE = ("generated project trees of 2..8 files in nested directories; import gra
         "distinct project trees; non-trivial = >= 3 files or an import inside an expression position.")
 RULE += (" " + 'Positions now number 40: every child slot of every expression and statement kind (reduce accumulator and target, map/filter target, select value, range start/step, in/is operands, single-argument format, format template expression, constraint expressions of let / tuple field / function parameter / module result, expression and assert statements, ...). Every project also holds decoy files - same base name as a real file, in other directories, imported by nobody, exporting other types or importing the entry - and a third of the imports are plain top-level lets.')
 RULE += (" " + 'Three more import positions: the callback holding the import is run by a helper of std/functional.ucg, a file without imports (maybe.do, maybe.or, identity).')
+RULE += (" " + 'Round 8: two of seven directories (stdcfg, standard/lib) and one file name in five (std3.ucg, stdlib_f3.ucg) begin with the letters of the embedded library prefix std/ without being it.')
 
 TRACE_RE = re.compile(r"TRACE: \"(F[0-9]+)\" = ")
 
